@@ -10,42 +10,24 @@ Definition bad (s : site) : list bool := map (site_eqb s) [Measure; Predicted; I
 Lemma pat_of_bad s t : pat_of (bad s) t = site_eqb s t.
 Proof. destruct s, t; reflexivity. Qed.
 
-(* KFCorrection: good step, then a step whose measure() fails.  The output is
-   the predicted belief of step 1, and getLikelihood still reports step 0's
-   likelihood as valid. *)
-Lemma kf_stale_witness :
+(* good step, then a step that cannot use the measurement: the output is the
+   predicted belief of step 1 and getLikelihood reports failure (the members of
+   step 0 are not reported again) *)
+Lemma kf_good_then_faulty :
   exists o0 o1, run_kf [good6; bad Measure] = [o0; o1] /\
-    fails_any (pat_of (bad Measure)) sites4 = true /\
-    o_g o1 = leaf (IPredG 1) /\ fst (o_lik o1) = true /\ o_lik o1 = o_lik o0.
+    fst (o_lik o0) = true /\ o_g o1 = leaf (IPredG 1) /\ o_lik o1 = (false, leaf IEmpty).
 Proof. do 2 eexists. split; [vm_compute; reflexivity|]. repeat split. Qed.
 
-(* UKFCorrection (generic): predictedMeasure fails in step 1: getLikelihood
-   evaluates step 0's innovations against the default-constructed
-   predicted_meas_ that the failed transform left behind *)
-Lemma ukf_stale_witness :
-  exists o0 o1 nu0, run_ukf false [good6; bad Predicted] = [o0; o1] /\
-    fails_any (pat_of (bad Predicted)) sites3 = true /\
-    o_g o1 = leaf (IPredG 1) /\
-    o_lik o1 = (true, ap2 FUkfLik nu0 (leaf FPmDefault)) /\
-    (exists pm0, snd (o_lik o0) = ap2 FUkfLik nu0 pm0).
-Proof. do 3 eexists. split; [vm_compute; reflexivity|]. repeat split. eexists; reflexivity. Qed.
+Lemma ukf_good_then_faulty additive :
+  exists o0 o1, run_ukf additive [good6; bad Predicted] = [o0; o1] /\
+    fst (o_lik o0) = true /\ o_g o1 = leaf (IPredG 1) /\ o_lik o1 = (false, leaf IEmpty) /\
+    o_log o1 = if additive then [Measure; Predicted] else [Measure; NoiseCov; Predicted].
+Proof. destruct additive; do 2 eexists; (split; [vm_compute; reflexivity|]); repeat split. Qed.
 
-Lemma ukf_additive_stale_witness :
-  exists o0 o1 nu0, run_ukf true [good6; bad Predicted] = [o0; o1] /\
-    o_g o1 = leaf (IPredG 1) /\
-    o_lik o1 = (true, ap2 FUkfLik nu0 (ap2 FPmAddNoise (leaf FPmDefault) (leaf IR))) /\
-    o_log o1 = [Measure; Predicted; NoiseCov].
-Proof. do 3 eexists. split; [vm_compute; reflexivity|]. repeat split. Qed.
-
-(* SUKFCorrection: innovation fails in step 1: step 0's innovations next to
-   step 1's raw propagated sigma points *)
-Lemma sukf_stale_witness ncalls lcalls :
-  exists o0 o1 nu0, run_sukf true ncalls lcalls [good6; bad Innovation] = [o0; o1] /\
-    fails_any (pat_of (bad Innovation)) sites3 = true /\
-    o_g o1 = leaf (IPredG 1) /\
-    o_lik o1 = (true, Node FSukfLik [nu0; ap1 FH (ap1 FSigma (leaf (IPredG 1))); leaf IR]) /\
-    (exists yp0, snd (o_lik o0) = Node FSukfLik [nu0; yp0; leaf IR]).
-Proof. do 3 eexists. split; [vm_compute; reflexivity|]. repeat split. eexists; reflexivity. Qed.
+Lemma sukf_good_then_faulty ncalls lcalls :
+  exists o0 o1, run_sukf true ncalls lcalls [good6; bad Innovation] = [o0; o1] /\
+    fst (o_lik o0) = true /\ o_g o1 = leaf (IPredG 1) /\ o_lik o1 = (false, leaf IEmpty) /\ o_liklog o1 = [].
+Proof. do 2 eexists. split; [vm_compute; reflexivity|]. repeat split. Qed.
 
 (* GPFCorrection over a KFCorrection and a likelihood model that reports a
    value: measure() fails, the wrapped correction returns the predicted
@@ -65,6 +47,14 @@ Lemma gpf_gauss_same_pattern :
     o_log o = [Measure; Measure].
 Proof. eexists. split; [vm_compute; reflexivity|]. repeat split. Qed.
 
+(* the same with shipped components only: the measurement is unavailable while the
+   wrapped KFCorrection runs and available when GaussianLikelihood asks *)
+Lemma gpf_transient_inner_failure_witness :
+  exists o, run_gpf 0 false [bad Measure ++ good6] = [o] /\
+    tm_eqb (o_g o) (leaf (IPredG 0)) = false /\ tm_eqb (o_s o) (leaf (IPredS 0)) = false /\
+    o_log o = [Measure; Measure; Predicted; Innovation; NoiseCov] /\ fst (o_lik o) = true.
+Proof. eexists. split; [vm_compute; reflexivity|]. repeat split. Qed.
+
 (* non-vacuity examples: all sixteen patterns of the four measurement-model calls, on the KF skeleton *)
 Definition all16 : list (list bool) :=
   flat_map (fun a => flat_map (fun b => flat_map (fun c => map (fun d => [a; b; c; d; false; false]) [false; true])
@@ -82,6 +72,7 @@ Proof. vm_compute. reflexivity. Qed.
 Lemma ukf_all16 additive :
   forallb (fun b => match run_ukf additive [b] with
                     | [o] => Bool.eqb (identity_at 0 o) (fails_any (pat_of b) sites3)
+                             && Bool.eqb (fst (o_lik o)) (negb (fails_any (pat_of b) sites3))
                     | _ => false end) all16 = true.
 Proof. destruct additive; vm_compute; reflexivity. Qed.
 
